@@ -203,6 +203,20 @@ class MutatorsRaiseDirtyBit(_StateOb):
                         lambda cv, cv2, f=f, cn=cn: getattr(getattr(cv.BCs, f), cn).__setitem__(Ellipsis, w.scalar('s' + f + cn)))
                 observe('element-assign %s.%s[0..]' % (f, cn),
                         lambda cv, cv2, f=f, cn=cn: getattr(getattr(cv.BCs, f), cn).__setitem__((0,) * getattr(getattr(cv.BCs, f), cn).ndim, w.scalar('e' + f + cn)))
+            def aug(cv, cv2, f=f):
+                # Python's `face.c *= s`: read the property, in-place operator, assign the result back through the setter
+                face = getattr(cv.BCs, f)
+                x = face.c
+                x *= w.scalar('aug' + f)
+                face.c = x
+            observe('augmented %s.c *= scalar' % f, aug)
+
+            def aug2(cv, cv2, f=f):
+                face = getattr(cv.BCs, f)
+                x = face.a
+                x += w.scalar('auga' + f)
+                face.a = x
+            observe('augmented %s.a += scalar' % f, aug2)
             observe('%s.fixedValue' % f, lambda cv, cv2, f=f: getattr(cv.BCs, f).fixedValue(w.scalar('fv' + f)))
             observe('%s.fixedGradient' % f, lambda cv, cv2, f=f: getattr(cv.BCs, f).fixedGradient(w.scalar('fg' + f)))
             observe('%s.defaultNoFlux' % f, lambda cv, cv2, f=f: getattr(cv.BCs, f).defaultNoFlux())
@@ -213,6 +227,11 @@ class MutatorsRaiseDirtyBit(_StateOb):
         observe('value[...] = scalar', lambda cv, cv2: cv.value.__setitem__(Ellipsis, w.scalar('sv')))
         observe('value[0..] = scalar', lambda cv, cv2: cv.value.__setitem__((0,) * nd, w.scalar('ev')))
         observe('value[0:1] = scalar', lambda cv, cv2: cv.value.__setitem__(slice(0, 1), w.scalar('lv')))
+        def augv(cv, cv2):
+            x = cv.value
+            x *= w.scalar('augv')
+            cv.value = x
+        observe('augmented value *= scalar', augv)
         observe('update_value(other)', lambda cv, cv2: cv.update_value(cv2))
         return dict(res=res)
 
@@ -472,3 +491,104 @@ def _mk_pair_classes():
 
 
 _mk_pair_classes()
+
+
+def _derive(w, cv, how):
+    from .solver import npshim_reshape_flat
+    if how == 'copy':
+        return cv.copy()
+    if how == 'arithmetic':
+        return cv * 2.0
+    if how == 'funceval':
+        return cel.funceval((lambda x: x + 1.0), cv)
+    if how in ('explicit-result', 'explicit-input'):
+        dt = w.scalar('dt_e', 'pos')
+        RHS = w.array('rhs_e', w.ghost_shape())
+        flat = RHS.ravel() if not w.symbolic else npshim_reshape_flat(w, RHS)
+        new = pde.solveExplicitPDE(cv, dt, flat)
+        return new if how == 'explicit-result' else cv
+    if how == 'updated':
+        r, _ = make_cellvar(w, 'upd')
+        r.apply_BCs()
+        r.update_value(cv)
+        return r
+    raise KeyError(how)
+
+
+def _mk_derived_classes():
+    """Objects produced BY the library (copy, arithmetic / funceval result, result and input of solveExplicitPDE, target
+    of update_value) must keep responding to the edit protocol: after a further edit of their boundary coefficients or
+    values, solvePDE uses the system a freshly constructed variable with the same visible state would use (no hidden
+    state such as a cached term that is never rebuilt), from a clean AND from a BC-dirty original."""
+    for how in ('copy', 'arithmetic', 'funceval', 'explicit-result', 'explicit-input', 'updated'):
+        for pre in ('clean', 'bc-dirty'):
+            for edit in ('bc-edit', 'value-edit', 'no-edit'):
+                if pre == 'clean' and edit == 'no-edit' and how in ('copy', 'arithmetic'):
+                    continue        # covered by solvePDE/derived_variable_keeps_Inv
+
+                class Derived(_StateOb):
+                    name = 'solvePDE/derived_object_then_edit_equals_fresh{%s,%s,%s}' % (how, pre, edit)
+                    props = ('C09', 'C14') if how in ('copy', 'arithmetic', 'funceval') else ('C09', 'C12')
+                    grids = ('Grid1D', 'Grid2D', 'Grid3D')
+                    quick = (pre == 'bc-dirty' or edit == 'bc-edit')
+
+                    def parts(self, w):
+                        return ['rows', 'flags'] + [(a, s) for a in range(w.nd) for s in (0, 1)]
+
+                    def region(self, w):
+                        return [c for a in range(w.nd) for c in (I(w.P[a]) >= 0, I(w.P[a]) <= w.N[a] + 1)]
+
+                    def points(self, w):
+                        return list(itertools.product(*[range(0, n + 2) for n in w.N]))
+
+                    def setup(self, w, how=how, pre=pre, edit=edit):
+                        cv = make_prestate(w, 'phi0', pre)
+                        r = _derive(w, cv, how)
+                        if edit == 'bc-edit':
+                            side = SIDES[w.nd - 1][0]
+                            getattr(r.BCs, side).c = w.array('late_c', side_shape(w, w.nd - 1))
+                            r.BCs.right.b = w.array('late_b', side_shape(w, 0))
+                        elif edit == 'value-edit':
+                            r.value = w.array('late_v', tuple(w.N))
+                        z = _term_zoo(w)
+                        rec = {}
+
+                        def solver(M, RHS):
+                            rec['M'], rec['RHS'] = M, RHS
+                            if w.symbolic:
+                                return T.SPSOLVE(M, RHS)
+                            from scipy.sparse.linalg import spsolve
+                            return spsolve(M, RHS)
+                        fresh_M, fresh_RHS = bnd.boundaryConditionsTerm(r.BCs)
+                        pde.solvePDE(r, [-z['Md'], z['Ms'], z['Rg']], externalsolver=solver)
+                        return dict(cv=r, rec=rec, fM=fresh_M, fRHS=fresh_RHS, z=z, psi=w.rawcell('psi')._value)
+
+                    def claims(self, w, S, P, part):
+                        cv = S['cv']
+                        if part == 'flags':
+                            return [('clean_after_solve', self.flag(w, is_clean(cv)))]
+                        if part == 'rows':
+                            nb = 0
+                            for a in range(w.nd):
+                                onb = CTX.decide((I(P[a]) == 0) | (I(P[a]) == w.N[a] + 1)) if w.symbolic else (P[a] in (0, w.N[a] + 1))
+                                nb += 1 if onb else 0
+                            if nb > 1:
+                                return []
+                            psi, z, rec = S['psi'], S['z'], S['rec']
+                            lhs = w.apply(rec['M'], psi, P) - w.vec(rec['RHS'], P)
+                            want = (w.apply(S['fM'], psi, P) - w.vec(S['fRHS'], P) - w.apply(z['Md'], psi, P)
+                                    + w.apply(z['Ms'], psi, P) - w.vec(z['Rg'], P))
+                            return [('system_is_fresh_system', w.eq(lhs, want))]
+                        if w.symbolic:
+                            if not all(CTX.decide((I(P[a]) >= 1) & (I(P[a]) <= w.N[a])) for a in range(w.nd)):
+                                return []
+                        elif not all(1 <= P[a] <= w.N[a] for a in range(w.nd)):
+                            return []
+                        return inv_claims(w, cv, P, part, 'cv')
+                Derived.__name__ = 'Derived_%s_%s_%s' % (how.replace('-', '_'), pre.replace('-', '_'), edit.replace('-', '_'))
+                Derived.__qualname__ = Derived.__name__
+                Derived.__module__ = __name__
+                globals()[Derived.__name__] = Derived
+
+
+_mk_derived_classes()
